@@ -338,3 +338,124 @@ Section Instance.
     apply LZ4V.Proofs.FrameDChunk.frame_decode_skip_mono. exact HA.
   Qed.
 End Instance.
+
+(* ================================================================== the pipelines, from the contracts in their true form *)
+Section PipesOpen.
+  Variable bdec : list byte -> list byte -> option (list byte).
+  Variable skipcrc : bool.
+  Variable LZ4F_header : lz4f_prefs -> list Z.
+  Variable LZ4F_frame : lz4f_prefs -> list Z -> list Z -> list Z.
+  Variable LZ4F_update : lz4f_prefs -> list Z -> list (list Z) -> list Z -> list Z.
+  Variable LZ4F_end : lz4f_prefs -> list Z -> list Z.
+  Variable LZ4_block : Z -> list Z -> list Z.
+  Hypothesis H_header : header_contract LZ4F_header.
+  Hypothesis H_update : update_contract_af bdec skipcrc LZ4F_update.
+  Hypothesis H_end : end_contract_v LZ4F_end.
+  Hypothesis H_frame : frame_contract_b bdec skipcrc LZ4F_frame.
+  Hypothesis H_block : block_contract bdec LZ4_block.
+
+  Lemma st_updates_extends_o p dict D maxb :
+    fp_autoFlush p <> 0 -> 4 <= fp_blockSizeID p <= 7 -> 0 <= fp_contentSize p < U64_MAX1 ->
+    f_indep D = negb (linked p) -> f_bcrc D = negb (fp_blockChecksum p =? 0) ->
+    f_bsid D = fp_blockSizeID p -> bsid_size (f_bsid D) = Some maxb ->
+    forall cs prev, extends bdec skipcrc D maxb dict (concat prev) (st_updates LZ4F_update p dict prev cs) (concat cs).
+  Proof.
+    intros Haf Hb Hc H1 H2 H3 H4. induction cs as [|c r IH]; intros prev.
+    - apply extends_nil.
+    - cbn [st_updates concat]. apply extends_app.
+      + apply H_update; try assumption. destruct (linked p); reflexivity.
+      + replace (concat prev ++ c) with (concat (prev ++ [c])); [apply IH|].
+        rewrite concat_app. cbn [concat]. rewrite app_nil_r. reflexivity.
+  Qed.
+
+  Theorem st_roundtrip_open (p : lz4f_prefs) (blockSize : Z) (dict content : list Z) :
+    1 <= blockSize -> valid_prefs p content -> fp_autoFlush p <> 0 -> lenZ content < U64_MAX1 ->
+    let F := st_output LZ4F_header LZ4F_frame LZ4F_update LZ4F_end p blockSize dict content in
+    stream_decode bdec skipcrc (S (length F)) dict [] F = Some content.
+  Proof.
+    intros Hbs Hv Haf HX. cbv zeta. apply stream_of_frame. unfold st_output.
+    destruct (lenZ content <? blockSize); [apply H_frame; assumption|].
+    rewrite (H_end p content Hv Haf).
+    destruct Hv as [Hid [Hcs Hu]].
+    destruct (H_header p Hid Hu) as [maxb Hh].
+    apply frame_assemble with (maxb := maxb); [exact Hh| |].
+    - rewrite <- (chunks_of_concat blockSize content Hbs) at 2.
+      apply (st_updates_extends_o p dict (CliProofs.desc_of p) maxb); try reflexivity; try assumption. apply Hh.
+    - cbn [CliProofs.desc_of f_csize]. destruct Hcs as [E|E]; rewrite E.
+      + left. reflexivity.
+      + destruct (lenZ content =? 0) eqn:E0; [left; reflexivity|right; right; reflexivity].
+  Qed.
+
+  Lemma mt_chunks_extends_o p dict cs D maxb :
+    fp_autoFlush p <> 0 -> 4 <= fp_blockSizeID p <= 7 -> 0 <= fp_contentSize p < U64_MAX1 ->
+    f_indep D = negb (linked p) -> f_bcrc D = negb (fp_blockChecksum p =? 0) ->
+    f_bsid D = fp_blockSizeID p -> bsid_size (f_bsid D) = Some maxb ->
+    (forall k, (S k < length cs)%nat -> lenZ (nth k cs []) = CHUNK) ->
+    forall suf pre, cs = pre ++ suf ->
+      extends bdec skipcrc D maxb dict (concat pre)
+              (concat (map (mt_chunk LZ4F_update p dict cs) (List.seq (length pre) (length suf))))
+              (concat suf).
+  Proof.
+    intros Haf Hb Hc H1 H2 H3 H4 Hfull. induction suf as [|c suf IH]; intros pre Hcs.
+    - apply extends_nil.
+    - cbn [length List.seq map concat]. apply extends_app.
+      + unfold mt_chunk. rewrite Hcs at 2. rewrite nth_middle.
+        apply H_update; try assumption. rewrite linked_no_ccrc.
+        destruct (linked p) eqn:El; cbn [andb]; [|reflexivity].
+        destruct pre as [|x pre0] using rev_ind.
+        * cbn [length Nat.eqb negb concat]. reflexivity.
+        * clear IHpre0. rewrite app_length. cbn [length]. rewrite Nat.add_1_r. cbn [Nat.eqb negb].
+          unfold prefix_of. rewrite Hcs at 1. rewrite <- app_assoc. cbn [app]. rewrite nth_middle.
+          assert (Hx : lenZ x = CHUNK).
+          { specialize (Hfull (length pre0)).
+            rewrite Hcs in Hfull at 2. rewrite <- app_assoc in Hfull. cbn [app] in Hfull. rewrite nth_middle in Hfull.
+            apply Hfull. rewrite Hcs, !app_length. cbn [length]. lia. }
+          rewrite window_is_prefix. cbn [concat]. rewrite app_nil_r, lastn_lastn.
+          rewrite concat_app. cbn [concat]. rewrite app_nil_r, app_assoc.
+          symmetry. apply lastn_app_ge.
+          unfold lenZ, CHUNK in Hx. change CLI_CHUNK_SIZE with 4194304 in Hx.
+          assert (Z.of_nat 65536 = 65536) by reflexivity. lia.
+      + replace (concat pre ++ c) with (concat (pre ++ [c])) by (rewrite concat_app; cbn [concat]; rewrite app_nil_r; reflexivity).
+        replace (S (length pre)) with (length (pre ++ [c])) by (rewrite app_length; cbn [length]; lia).
+        apply IH. rewrite <- app_assoc. exact Hcs.
+  Qed.
+
+  Theorem mt_roundtrip_open (p : lz4f_prefs) (dict content : list Z) :
+    valid_prefs p content -> fp_autoFlush p <> 0 -> lenZ content < U64_MAX1 ->
+    let F := mt_output LZ4F_header LZ4F_frame LZ4F_update p dict content in
+    stream_decode bdec skipcrc (S (length F)) dict [] F = Some content.
+  Proof.
+    intros Hv Haf HX. cbv zeta. apply stream_of_frame. unfold mt_output.
+    destruct (lenZ content <? CHUNK); [apply H_frame; assumption|].
+    destruct Hv as [Hid [Hcs Hu]].
+    destruct (H_header p Hid Hu) as [maxb Hh].
+    assert (HC : 1 <= CHUNK) by (apply Z.leb_le; reflexivity).
+    replace (mt_tail p content) with (frame_tail (CliProofs.desc_of p) content)
+      by (unfold mt_tail, frame_tail, CliProofs.desc_of; cbn [f_ccrc]; destruct (fp_contentChecksum p =? 0); reflexivity).
+    apply frame_assemble with (maxb := maxb); [exact Hh| |].
+    - rewrite <- (chunks_of_concat CHUNK content HC) at 3.
+      apply (mt_chunks_extends_o p dict (chunks_of CHUNK content) (CliProofs.desc_of p) maxb) with (pre := []);
+        try reflexivity; try assumption; [apply Hh|].
+      intros k Hk. apply chunks_nth_full; [exact HC|lia|exact Hk].
+    - cbn [CliProofs.desc_of f_csize]. destruct Hcs as [E|E]; rewrite E.
+      + left. reflexivity.
+      + destruct (lenZ content =? 0) eqn:E0; [left; reflexivity|right; right; reflexivity].
+  Qed.
+
+  Theorem cli_roundtrip_open (mt : bool) (args : list arg) (s : cli_state) (fileSize : Z) (dict content : list Z) :
+    parse_args cli_init args = Some s -> (fileSize = 0 \/ fileSize = lenZ content) -> lenZ content < U64_MAX1 ->
+    let F := cli_compress LZ4F_header LZ4F_frame LZ4F_update LZ4F_end LZ4_block mt s fileSize dict content in
+    stream_decode bdec skipcrc (S (length F)) dict [] F = Some content.
+  Proof.
+    intros Hp Hsz H64. cbv zeta. unfold cli_compress.
+    pose proof (parse_args_inv args cli_init s cli_init_inv Hp) as [Hid Hbs].
+    destruct (c_legacy s); [apply legacy_roundtrip; exact H_block|].
+    assert (Hv : valid_prefs (prefs_of s fileSize) content).
+    { split; [exact Hid|]. cbn [prefs_of fp_contentSize]. pose proof (lenZ_nonneg content) as H0.
+      unfold U64_MAX1 in *.
+      destruct (io_contentSizeFlag (c_prefs s) =? 0); [split; [left; reflexivity|lia]|].
+      destruct Hsz as [E|E]; (split; [first [left; exact E|right; exact E]|lia]). }
+    assert (Haf : fp_autoFlush (prefs_of s fileSize) <> 0) by (cbn; discriminate).
+    destruct mt; [apply mt_roundtrip_open; assumption|apply st_roundtrip_open; assumption].
+  Qed.
+End PipesOpen.
